@@ -40,6 +40,10 @@ func VerifC16Bio() {
 		vrt.Out("v", got)
 	}
 	vrt.Assert(d == 0, "C04 packet-header bit reader returns the written values")
+	// the body follows the header: after alignment the reader stands exactly
+	// behind the bytes flush() produced (stuffing byte after a final FF included)
+	aerr := br.alignToByte()
+	vrt.Assert(aerr == nil && br.bytesRead() == len(b), "C04 packet-header reader, once aligned, has consumed exactly the header the writer flushed")
 }
 
 // VerifC04PacketCodes: number-of-passes code and comma code through the real
